@@ -847,6 +847,9 @@ def run(ck, tier, rng):
         leaf = leaf_roundtrip(ck, rng, 1500 if tier == "quick" else 20000) if ck.build.ok else {}
         # whole-body level: lxml's bytes for the a:txBody python-pptx built, and what the parser reads back, against model/TextCodec.v
         codec = codec_roundtrip(ck, rng, 12000 if tier == "quick" else 100000) if ck.build.ok else {}
+        # the one place where the real parser is known to leave the reader the codec theorems are about (recorded finding)
+        from checks import xmltree_phase
+        codec = dict(codec, blank_text_at_block_boundary=xmltree_phase.boundary_probe(ck))
         ck.broken_build(oracle_found_concrete=len(ck.violations) > 0)
         return ck.finish(
             rule="every string of length <= 3 over {a, space, LF, VT, BEL, TAB} at each of the four levels; named strings from the property text; "
